@@ -12,13 +12,16 @@ def main():
     rep, outs = R.run_contracts("C09", sel, ["DFA.append_after", "CaseNode._merge", "DFState.transition", "OptionalNode.convert", "LoopNode.convert"], ["dfa", "merge"], "all", TEXT,
                                 ["DFA.append_after", "CaseNode._merge", "DFState.transition", "OptionalNode.convert", "LoopNode.convert"])
     # proved parts: refusal logic of the case merge for all priorities (pyvc + z3); literal inner machines hand over only error transitions
-    from . import merge_proofs
+    from . import merge_proofs, c09_proofs
     merge_proofs.run(rep, "C09")
+    c09_proofs.run(rep, "C09")
     return R.finish(rep, TEXT + TEXT2, "C09")
 
 
 TEXT2 = (" Proved (pyvc on the real AST of CaseNode._merge.create_real_state_of, merged states of up to 3 clauses, every acceptance pattern, greedy and not, symbolic priorities): a merge in which two clauses finish, or one finishes "
-         "while another continues, is refused unless the case is greedy; a greedy merge is refused exactly when no finishing clause has the strictly highest priority, and otherwise the owner has it (z3).")
+         "while another continues, is refused unless the case is greedy; a greedy merge is refused exactly when no finishing clause has the strictly highest priority, and otherwise the owner has it (z3). "
+         "Proved (pyvc on the real AST of DFState.transition, default mode, states with 1-2 existing transitions, arbitrary symbol lists, symbolic kind / error flags): the duplicate-transition guard refuses only "
+         "a transition that overlaps one of different behaviour, never returns normally with such an overlap in place, leaves the state untouched for a duplicate, and otherwise appends or merges into an identical transition.")
 
 
 def replay(path):
